@@ -8,6 +8,7 @@
 //                  loaded again and dumped again; first vs second dump compared (key-sorted, name-keyed lists sorted).
 //   generic      : encoding/json on each v2 struct whose codec is the generic one, against the field-table codec model.
 //   pair         : the custom (Un)MarshalJSON pairs FilterChain, Host, RetryPolicy against their models.
+//   fix          : EVERY v2 struct, custom (Un)MarshalJSON included: Unmarshal / Marshal twice, second output = first.
 //   dur          : time.ParseDuration / Duration.String against the digit-level model.
 package c19
 
@@ -551,6 +552,22 @@ func (g *wgen) value(t reflect.Type, depth int) string {
 	if isHole(t) {
 		return g.holeJSON()
 	}
+	switch {
+	case t == durCfg:
+		switch r.Intn(12) {
+		case 0:
+			return "0"
+		case 1:
+			return "null"
+		case 2:
+			return "7"
+		}
+		return fmt.Sprintf("%q", g.durString())
+	case t.PkgPath() != "" && t.PkgPath() != v2Pkg && t.Kind() == reflect.Uint64:
+		return r.PickS([]string{"0", "1", "1024", "1536", `"1KB"`, `"10 MB"`, `"1.5MB"`, `"x"`, "1048576"})
+	case t.PkgPath() != "" && t.PkgPath() != v2Pkg:
+		return "null"
+	}
 	if g.spoil == 0 {
 		g.spoil = -1
 		g.c.Count("generic.spoiled=" + t.Kind().String())
@@ -599,11 +616,37 @@ func (g *wgen) object(t reflect.Type, depth int) string {
 	r := g.r
 	var parts []string
 	dupAt := map[int]int{}
-	for i := 0; i < t.NumField(); i++ {
-		f := t.Field(i)
+	var fields []reflect.StructField
+	var collect func(t reflect.Type)
+	collect = func(t reflect.Type) {
+		for i := 0; i < t.NumField(); i++ {
+			f := t.Field(i)
+			if f.Anonymous && f.Tag.Get("json") == "" && f.Type.Kind() == reflect.Struct {
+				collect(f.Type) // promoted members of an embedded config struct
+				continue
+			}
+			fields = append(fields, f)
+		}
+	}
+	collect(t)
+	for _, f := range fields {
 		k, ok := jsonKey(f)
 		if !ok || !r.Chance(65) {
 			continue
+		}
+		switch k {
+		case "clusters_configs", "router_configs":
+			continue // dynamic-mode directories: the marshalers would write files
+		case "address":
+			if t.Name() == "Listener" {
+				parts = append(parts, fmt.Sprintf(`"address":"127.0.0.1:%d"`, 3000+r.Intn(1000)))
+				continue
+			}
+		case "network":
+			if t.Name() == "Listener" {
+				parts = append(parts, `"network":`+r.PickS([]string{`"tcp"`, `"TCP"`, `"udp"`, `""`, `"unix"`, `"sctp"`}))
+				continue
+			}
 		}
 		// a duplicated scalar member: the last one wins (both non-null: a null after a value is a no-op in
 		// encoding/json, which the model does not distinguish)
@@ -682,6 +725,27 @@ func generics(c *hx.Ctx, n int) {
 			c.Count("generic.result=ok")
 		}
 		c.Emit("C19", "generic "+t.Name()+" "+esc(wire), res)
+	}
+}
+
+// fixpoints: EVERY struct of v2 (custom marshalers included) through Unmarshal / Marshal twice: what the first cycle
+// writes must be what the second writes (no Lean model: the predicate is evaluated on the implementation).
+func fixpoints(c *hx.Ctx, n int) {
+	all := v2Structs()
+	for i := 0; i < n; i++ {
+		t := all[i%len(all)]
+		g := &wgen{c: c, r: c.Rng.Fork(), spoil: -1}
+		wire := g.object(t, 0)
+		res := cycle(t, wire)
+		if res == "err" {
+			c.Count("fix.result=err")
+		} else {
+			c.Count("fix.result=ok")
+			if hasCustom(t) {
+				c.Count("fix.custom=" + t.Name())
+			}
+		}
+		c.Emit("C19", "fix "+t.Name()+" "+esc(wire), res)
 	}
 }
 
@@ -1180,6 +1244,7 @@ func Run(c *hx.Ctx) {
 	samples(c, tmp)
 	generics(c, c.N(2500, 25000))
 	pairs(c, c.N(1500, 15000))
+	fixpoints(c, c.N(2500, 25000))
 	durs(c, c.N(1500, 20000))
 	gens(c, tmp, c.N(300, 5000))
 }
